@@ -287,6 +287,8 @@ def check(an, rep, tier):
             'F = S * ...', 'ok' if init else 'violation',
             '' if init else 'the rows chosen by maxvol are not masked before '
             'the greedy additions start')
+    from .. import rules_proto as _RPZ
+    _RPZ.check_none_vs_zero(prog, rep, modules={'maxvol'})
     rep.floor('S-summary', 1, 'summary conformance (maxvol)')
     rep.floor('P-domain', 9, 'rejections')
     rep.floor('P-pair', 2, 'select / mask pairing')
